@@ -19,6 +19,43 @@ def find_time_filter(op, time_column_name):
         return op
 
 
+def check_time_column_usage(where, time_filter, time_column_name):
+    """The order_by column can be used only as the column of the time filter (`column <op> value`,
+    `column BETWEEN a AND b`). Anywhere else (inside CAST(...), as a bound of BETWEEN, on both sides) the condition
+    would be sent to the database as an ordinary filter, without the context window of the predictor."""
+    from mindsdb_sql.parser.ast import Select
+
+    time_column_name = time_column_name.lower()
+
+    def is_time_column(node):
+        return isinstance(node, Identifier) and node.parts[-1].lower() == time_column_name
+
+    def check(node):
+        if node is None:
+            return
+        if node is time_filter:
+            if not is_time_column(node.args[0]):
+                raise PlanningException(
+                    f'Unsupported filter by predictor order_by column, expected: column <operator> value, found: {str(node)}')
+            check(node.args[1:])
+        elif is_time_column(node):
+            raise PlanningException(
+                f'Unsupported usage of predictor order_by column {str(node)} in WHERE: '
+                f'only filter in form of: column <operator> value is supported')
+        elif isinstance(node, (list, tuple)):
+            for item in node:
+                check(item)
+        elif isinstance(node, Select):
+            # scope of its own
+            return
+        elif hasattr(node, '__dict__') and not isinstance(node, Identifier):
+            for name, value in vars(node).items():
+                if name != 'alias':
+                    check(value)
+
+    check(where)
+
+
 def replace_time_filter(op, time_filter, new_filter):
     if op == time_filter:
         return new_filter
